@@ -273,6 +273,8 @@ class KernelSim(WorldBase):
             for _ in range(2):
                 evs.append(["session", {"role": "consume", "flow": flow, "prefix": "c", "reg": creg,
                                         "ncu": g.choice(THRESHOLDS), "mask": g.getrandbits(48), "end": "normal"}])
+            evs.append(["session", {"role": "consume", "flow": flow, "prefix": "c", "reg": creg,
+                                    "ncu": g.choice(THRESHOLDS), "mask": 0, "end": "normal", "premature_end": True}])
             if g.random() < 0.4:
                 # the program updates an operand in place (an element somewhere in the middle) and measures again
                 out_, ops_ = K.case_spec(case)
@@ -657,7 +659,19 @@ class KernelSim(WorldBase):
                                  hook=hook)
             if s.get("break_at"):
                 self.fault("loop-left-early")
-            if role == "consume":
+            if role == "consume" and s.get("premature_end"):
+                # the program calls endCollect() too early (rows are still waiting for the consumer): the call is turned
+                # away, the consumer drains, and the session is ended again - nothing is lost, nothing comes twice
+                try:
+                    Metrics.endCollect()
+                except AssertionError:
+                    self.fault("endCollect-rejected-undrained")
+                    self.probe("endcollect_rejected_then_retried")
+                except Exception:
+                    pass
+                if Metrics.isCollecting():
+                    self._drain(s["reg"], batches)
+            elif role == "consume":
                 self._drain(s["reg"], batches)
             if isect is not None:
                 self._isect_drain(isect)
